@@ -465,7 +465,35 @@ func (f *Frame) instr(in ssa.Instruction, st *State) {
 			at := bt.Elem().Underlying().(*types.Array)
 			bl := f.ptrLoc(base)
 			if bl.Kind != LArr {
-				f.unsupported("IndexAddr on non-static array pointer")
+				// an array that is not a local backing array (a package-level table, an
+				// array field): the bounds obligation is exact; a read yields an
+				// unconstrained element (over-approximation), a write is not modelled
+				f.oblige(st, "SAFE", "index out of range", x.Pos(), And(Le(Zero, idx), Lt(idx, IntT(at.Len()))))
+				readOnly := true
+				if refs := x.Referrers(); refs != nil {
+					for _, r := range *refs {
+						switch u := r.(type) {
+						case *ssa.UnOp:
+							if u.Op != token.MUL {
+								readOnly = false
+							}
+						case *ssa.DebugRef:
+						default:
+							readOnly = false
+						}
+					}
+				}
+				if !readOnly {
+					f.unsupported("write through IndexAddr on a non-local array")
+				}
+				el := at.Elem()
+				tmp := vc.alloc(st, "arrcell", "C|"+typeKey(el))
+				tl := objLoc(x.Type(), tmp)
+				v := vc.freshVal("arrelem", el)
+				f.assumeWF(st, v)
+				vc.store(st, tl, v)
+				f.vals[x] = Val{T: x.Type(), L: []Term{tmp}}
+				break
 			}
 			f.oblige(st, "SAFE", "index out of range", x.Pos(), And(Le(Zero, idx), Lt(idx, IntT(at.Len()))))
 			el := at.Elem()
